@@ -92,6 +92,10 @@ theorem example_shielded :
 /-- kernprof builds its parsers without abbreviations (read from the tree by the translator) -/
 theorem kernprof_no_abbrev : Generated.kernprofAllowAbbrev = false := by decide
 
+/-- … and none of them expands `@file` arguments (`fromfile_prefix_chars`): argparse would do that over the whole command line, the
+    program's arguments included -/
+theorem kernprof_no_response_files : Generated.kernprofFromfilePrefix = false := by decide
+
 /-- … so the parser kernprof runs is the one the theorems above are about -/
 theorem kernprof_parser (args : List String) :
     parseCmdWith Generated.kernprofAllowAbbrev Generated.kernprofOptions args = parseCmd Generated.kernprofOptions args := by
